@@ -2,6 +2,7 @@
    Only property theorems and their assumptions. *)
 From Coq Require Import List NArith Bool.
 From Quill Require Import Queue.BQDefs Backend.BEDefs Backend.BEInv Backend.BEDispatch Backend.BEFault.
+From Quill Require Backend.BEExec.
 Import ListNotations.
 Local Open Scope N_scope.
 
@@ -37,3 +38,10 @@ Theorem C16_dynamic_exact : forall reset old meta_lvl given,
   eff_level (decode_level reset old meta_lvl given) meta_lvl = if meta_lvl =? LV_DYNAMIC then given else meta_lvl.
 Proof. exact slot_level_exact. Qed.
 Print Assumptions C16_dynamic_exact.
+
+(* macro level: the test the LOG_* macros make before touching their arguments (should_log_statement) is the test
+   of the model's enqueue step: for an ordinary statement passes_logger is level_passes of the two levels *)
+Theorem C16_macro_guard_is_enqueue_guard : forall s e, ekind e = KLog ->
+  passes_logger s e = Quill.Backend.BEExec.level_passes (llevel (lg s (elg e))) (elvl e).
+Proof. intros s e H. unfold passes_logger, Quill.Backend.BEExec.level_passes. rewrite H. reflexivity. Qed.
+Print Assumptions C16_macro_guard_is_enqueue_guard.
